@@ -4,6 +4,7 @@ from spec import enc
 from harness.elfkit import stream_length, elf_object
 from spec import elf_layout as L
 from spec import registry as REG
+from harness import c01 as C1
 
 PROPERTY = 'C15'
 ASSUMPTIONS = [
@@ -307,6 +308,9 @@ def _index_instances(tier):
 TIER_PARAMS = {'quick': {'conc_cap': 300}, 'thorough': {'conc_cap': 600}}
 
 HARNESSES = [
+    H('h15_5_link_0xffff', C1.h_many_sections, lambda tier: [dict(elfclass=64, little=False, n=0x10001, links_first=True)], expect=('ok',), decoy=-1,
+      desc='a file with more than 0xff00 sections whose version sections (and symbol table, dynamic section) link to the string table at index 0xffff: '
+           'names come from THAT section, not from the section name table the file header escapes to with the same value (ground instance; harness shared with C01)'),
     H('h15_1_records', h_records, lambda tier: [dict(elfclass=c, little=l, which=w) for c, l in ENVS for w in ('VERDEF', 'VERDAUX', 'VERNEED', 'VERNAUX')], expect=('ok',),
       desc='Elf_Verdef / Verdaux / Verneed / Vernaux of fully symbolic bytes: layout per the Sun/GNU symbol versioning description'),
     H('h15_2_chain', h_chain, _chain_instances, decoy='all', expect=('ok',),
